@@ -113,6 +113,8 @@ def op_kind(raw) -> tuple:
     """Coverage class of one implementation step."""
     if raw is None:
         return ("setup",)
+    if raw["kind"] == "reconnect":
+        return ("reconnect", exc_name(raw["exc"]))
     if raw["kind"] == "send":
         f = raw["fields"]
         return ("send", f[2], raw["buffered"], exc_name(raw["exc"]), len(raw["writes"]),
@@ -235,6 +237,9 @@ def replay_ops(ctx, rp, oracle):
         if raw is None:
             continue
         what = raw.get("line") if raw["kind"] == "recv" else raw.get("fields")
+        if raw["kind"] == "reconnect":
+            print("reconnect", "->", exc_name(raw["exc"]) or "ok", "version/protocol", raw["after"]["pv"], raw["after"]["proto"])
+            continue
         print(raw["kind"], repr(what), "->", exc_name(raw["exc"]) or "ok", [w for w in raw["writes"]])
     fs = oracle(im, ops) if oracle else []
     for f in fs:
